@@ -91,3 +91,75 @@ fn c02_o4a_immutable_glue() {
     std::mem::forget(out);
     std::mem::forget(core);
 }
+
+//@ ob: C02.O4b
+//@ tier: thorough
+//@ cap: 3000
+//@ mem: 28
+//@ standins: tracing lru vcoll
+//@ desc: get_mutable glue with an earlier authentic item already recorded in the lookup: a later get_mutable response -- whose key, seq and signature bytes symbolically repeat the recorded item's or differ, around any value -- is surfaced and recorded only if MutableItem::from_dht_message was asked about exactly this response (target of the lookup, the response's k, v, seq, sig, the lookup's salt) and accepted it; otherwise nothing surfaces, the recorded responses are unchanged; nothing is yielded without verification (a replayed signature around another value included)
+//@ bounds: one lookup with one recorded item (k = [1;32], sig = [2;64], seq0 symbolic, 1-byte value); one response with symbolic replay bits for key / signature / seq, symbolic 1-byte value, symbolic contract verdicts; tid matches; not read-only; unwind 66
+//@ stubs: MutableItem::from_dht_message -> contract (leaf C02.O1a-f) with call counter and last-argument record; validate_immutable, SignedAnnounce::from_dht_response -> flagged cuts; Instant::now; getrandom::fill
+//@ functions: Core::handle_response (GetMutable arm + bookkeeping), IterativeQuery::{inflight,response,responses}
+#[kani::proof]
+#[kani::stub(crate::common::immutable::validate_immutable, vi_cut)]
+#[kani::stub(crate::common::mutable::MutableItem::from_dht_message, mh::from_dht_message_contract)]
+#[kani::stub(crate::common::signed_announce::SignedAnnounce::from_dht_response, sh::from_dht_cut)]
+#[kani::stub(std::time::Instant::now, clock::now)]
+#[kani::stub(getrandom::fill, rnd::fill)]
+#[kani::unwind(66)]
+fn c02_o4b_mutable_glue_after_cached_item() {
+    clock::set(0);
+    let mut core = new_core(false, Vec::with_capacity(1));
+    let target = Id::from([5u8; 20]);
+    lookup(&mut core, target, GetRequestSpecific::GetValue(GetValueRequestArguments { target, seq: None, salt: None }));
+    let from = SocketAddrV4::new([10, 0, 0, 9].into(), 6881);
+    let seq0: i64 = kani::any();
+    let val0: u8 = kani::any();
+    let first = MutableItem::kani_build(target, [1; 32], [2; 64], Box::new([val0]), seq0, None);
+    core.iterative_queries.get_mut(&target).unwrap().response(from, Response::Mutable(first));
+    // the later response
+    let same_k: bool = kani::any();
+    let same_sig: bool = kani::any();
+    let same_seq: bool = kani::any();
+    let other_seq: i64 = kani::any();
+    let val: u8 = kani::any();
+    let kb: u8 = if same_k { 1 } else { 7 };
+    let sb: u8 = if same_sig { 2 } else { 8 };
+    let seq = if same_seq { seq0 } else { other_seq };
+    let sig_valid: bool = kani::any();
+    let target_ok: bool = kani::any();
+    unsafe {
+        mh::CONTRACT_SIG_VALID.v = sig_valid;
+        mh::CONTRACT_TARGET_OK.v = target_ok;
+    }
+    let msg = envelope(TID, false, ResponseSpecific::GetMutable(crate::common::GetMutableResponseArguments {
+        responder_id: Id::from([9u8; 20]),
+        token: Box::new([1, 2, 3, 4]),
+        nodes: None,
+        v: Box::new([val]),
+        k: [kb; 32],
+        seq,
+        sig: [sb; 64],
+    }));
+    let out = core.handle_response(from, msg);
+    let calls = unsafe { mh::CONTRACT_CALLS.v };
+    let recorded = core.iterative_queries.get(&target).map(|q| q.responses().len()).unwrap_or(99);
+    let accept = sig_valid && target_ok;
+    match &out {
+        Some((t, Response::Mutable(item))) => {
+            assert!(calls == 1 && accept, "C02.O4 a mutable item surfaces only after from_dht_message verified this very response");
+            assert!(*t == target && item.seq() == seq && item.value() == &[val], "C02.O4 surfaced item is the response's item for the lookup's target");
+            assert!(item.key()[0] == kb && item.key()[31] == kb && item.signature()[0] == sb && item.signature()[63] == sb, "C02.O4 surfaced item is the response's item for the lookup's target");
+        }
+        Some(_) => assert!(false, "C02.O4 a get_mutable response yields a mutable item"),
+        None => assert!(!accept, "C02.O4 an authentic item for an in-flight lookup is delivered"),
+    }
+    assert!(recorded == 1 + accept as usize, "C02.O4 only verified items are recorded in the lookup");
+    assert!(!cut_reached(), "CUT: another kind's validator reached");
+    kani::cover!(accept && same_k && same_sig && same_seq && val != val0);
+    kani::cover!(!accept && same_k && same_sig && same_seq && val != val0);
+    kani::cover!(accept && !same_k);
+    std::mem::forget(out);
+    std::mem::forget(core);
+}
